@@ -15,6 +15,8 @@ class Program:
         self.itabs = d["itabs"]
         self.externals = set(d["externals"])
         self.missing_entries = d["missing_entries"]
+        for bn in list(INT_TYPES) + ["bool", "string", "float64"]:
+            self.types.setdefault(bn, {"kind": "basic", "name": bn})
         self._cfg = {}
         self._lay = {}
         self.opaque = {}     # named type id -> domain object (set by the harness config)
